@@ -31,9 +31,11 @@ pub enum Layout {
     RevView,
     /// every second row of a 2n x d array whose other rows hold NaN
     Strided,
+    /// reversed-feature-axis view of a feature-reversed copy (contiguous in memory order, stride -1 along the features)
+    RevFeat,
 }
 
-pub const VARIANTS: [Layout; 5] = [Layout::StdView, Layout::FOwned, Layout::TView, Layout::RevView, Layout::Strided];
+pub const VARIANTS: [Layout; 6] = [Layout::StdView, Layout::FOwned, Layout::TView, Layout::RevView, Layout::Strided, Layout::RevFeat];
 
 /// backing storage of one logical matrix in all layouts
 pub struct Store<F> {
@@ -42,6 +44,7 @@ pub struct Store<F> {
     fm: Array2<F>,
     rev: Array2<F>,
     big: Array2<F>,
+    frev: Array2<F>,
 }
 
 impl<F: SvmFloat> Store<F> {
@@ -55,6 +58,7 @@ impl<F: SvmFloat> Store<F> {
             fm: Array2::from_shape_fn((d, n), |(j, i)| at(i, j)),
             rev: Array2::from_shape_fn((n, d), |(i, j)| at(n - 1 - i, j)),
             big: Array2::from_shape_fn((2 * n, d), |(i, j)| if i % 2 == 0 { at(i / 2, j) } else { F::nan() }),
+            frev: Array2::from_shape_fn((n, d), |(i, j)| at(i, d - 1 - j)),
         }
     }
     pub fn view(&self, l: Layout) -> ArrayView2<'_, F> {
@@ -64,6 +68,7 @@ impl<F: SvmFloat> Store<F> {
             Layout::TView => self.fm.t(),
             Layout::RevView => self.rev.slice(s![..;-1, ..]),
             Layout::Strided => self.big.slice(s![..;2, ..]),
+            Layout::RevFeat => self.frev.slice(s![.., ..;-1]),
         }
     }
     /// owned array for the two owned layouts
